@@ -36,6 +36,11 @@ CHECKS = {
             "For every geometry, budget and config set (N<=7 quick / <=10 thorough) and every epoch-boundary checkpoint strictly before the budget, given in each of the three forms, the resumed real generator must produce exactly the suffix of the uninterrupted reference trace (set_epoch numbers, indices, side passes, stopping point); explicit constructor rejections are counted, not failed.",
             "Trusted: reference model; checkpoints off epoch boundaries are outside the stated domain.",
             "DESIGN.md section 5 C06"),
+    "C07": ("E2-bfs", "model_checking",
+            "explicit enumeration of operation histories (construct, calls, global-RNG perturbation, seed injection, re-injection) per transform spec with a path-independence oracle",
+            "For every catalogued stochastic transform (found by walking the transform packages; uncovered classes are listed in the evidence) and compositions (compose, random-apply, patchwise, scheduled; nested to depth 2 quick / 3 thorough), all histories construct(g).call^{0..2}.[perturb].set_rng(s).call^3.set_rng(s).call^3 over two global RNG states and three seeds are executed on the real objects; the observation (outputs + context) for a state (spec, seed, inputs since injection) must be identical along every history, re-injection must replay, and the global NumPy/Torch/Python RNG states must be bit-identical across every post-injection call.",
+            "Trusted: the catalogue's constructor arguments/inputs; image content and sizes beyond the catalogue are not covered; calls that raise consistently are counted, not judged here.",
+            "DESIGN.md section 5 C07"),
     "C10": ("E1-choice", "exploration",
             "stateless choice-point exploration: the collator's generator is replaced by ChoiceRng and every answer sequence within a deviation bound is executed on the real collator",
             "All constructor combinations the constructor accepts (apply/lamb/shuffle modes x mixup-only/cutmix-only/both with two splits), batch sizes 1..4, several image shapes, one-hot and binary scalar labels, three modes, with/without context: every execution with <=2 (quick) / <=3 (thorough) non-default RNG answers (unit draws on both sides of each threshold, 4 beta values, every box centre, every permutation) is run; partner and weight are decoded independently from id-coded pixels and from the label rows and must agree with each other, with the shuffle mode and with the weight reported in the context. The MAE fine-tune collator is explored with the full product.",
